@@ -436,12 +436,17 @@ class Layer:
         self.additional_audiences: List[str] = []
         self.comparam_refs: List[str] = []
         self.parent_refs: List[str] = []
+        self.sub_components: List[str] = []
+        self.libraries: List[str] = []
+        self.layer_sdgs: str = ""        # SDGS of the layer
+        self.layer_admin: str = ""       # ADMIN-DATA of the layer
+        self.tail: str = ""              # DIAG-VARIABLES / VARIABLE-GROUPS / DYN-DEFINED-SPEC, verbatim
         self.patterns: str = ""          # ECU-VARIANT-PATTERNS / BASE-VARIANT-PATTERN
         self.comparam_spec_ref: str = ""  # PROTOCOL only
         self.prot_stack_snref: str = ""
 
     def render(self) -> str:
-        b = sn(self.name)
+        b = sn(self.name) + self.layer_admin
         if self.funct_classes:
             b += tag("FUNCT-CLASSS", "".join(self.funct_classes))
         ddds = ""
@@ -460,13 +465,16 @@ class Layer:
         for (t, lst) in (("DIAG-COMMS", self.diag_comms), ("REQUESTS", self.requests), ("POS-RESPONSES", self.pos_responses),
                          ("NEG-RESPONSES", self.neg_responses), ("GLOBAL-NEG-RESPONSES", self.gnrs),
                          ("IMPORT-REFS", self.import_refs), ("STATE-CHARTS", self.state_charts),
-                         ("ADDITIONAL-AUDIENCES", self.additional_audiences)):
+                         ("ADDITIONAL-AUDIENCES", self.additional_audiences), ("SUB-COMPONENTS", self.sub_components),
+                         ("LIBRARYS", self.libraries)):
             if lst:
                 b += tag(t, "".join(lst))
+        b += self.layer_sdgs
         if self.comparam_refs:
             b += tag("COMPARAM-REFS", "".join(self.comparam_refs))
         if self.kind == "PROTOCOL":
             b += self.comparam_spec_ref + self.prot_stack_snref
+        b += self.tail
         if self.kind in ("BASE-VARIANT", "ECU-VARIANT"):
             b += self.patterns
         if self.parent_refs:
